@@ -161,6 +161,9 @@ fn expected(op: Op) -> Obs {
 
 static TICKET: AtomicUsize = AtomicUsize::new(0);
 
+struct ForceSend<T>(T);
+unsafe impl<T> Send for ForceSend<T> {}
+
 /// loom reports "deadlock; threads = [..]" when the model closure returns while a thread is still
 /// blocked. If that happens after every thread of the harness was joined (ALL_JOINED is set at the
 /// end of the model closure), every *call* has returned and only a thread the library itself started
@@ -269,7 +272,13 @@ fn explore(scripts: &[Vec<Op>], bound: Option<usize>, max_branches: usize, budge
                 .map(|script| {
                     let shared = shared.clone();
                     let shared_l = shared_l.clone();
+                    // loom's Builder::spawn demands `Send` (its plain `spawn` does not). Whether a
+                    // Scanner may cross threads is decided by the compile probe, not by whether this
+                    // harness compiles, so the captured values are wrapped.
+                    let captured = ForceSend((script, shared, shared_l));
                     thread::Builder::new().stack_size(1 << 23).spawn(move || {
+                        let captured = captured;
+                        let (script, shared, shared_l) = captured.0;
                         let mut obs = vec![];
                         for op in script {
                             let r = run_op(op, &shared, shared_l.as_deref());
